@@ -199,10 +199,14 @@ func (pit *pebbleIterator) Seek(id []byte) error {
 func (pit *pebbleIterator) SeekReverse(id []byte) error {
 	pit.forward = false
 	if !pit.iter.SeekGE(id) {
-		return io.EOF
-	}
-	if bytes.Compare(id, pit.iter.Key()) < 0 {
-		pit.iter.Prev()
+		// every key is smaller than id: the largest key <= id is the last one
+		if !pit.iter.Last() {
+			return io.EOF
+		}
+	} else if bytes.Compare(id, pit.iter.Key()) < 0 {
+		if !pit.iter.Prev() {
+			return io.EOF
+		}
 	}
 	pit.key = copyBytes(pit.iter.Key())
 	pit.value = copyBytes(pit.iter.Value())
